@@ -2785,7 +2785,7 @@ type state = { accts : z amap; supply : z; vals : validator amap;
                proposer : bytes option; pkrel : bytes amap; pp : pparams;
                ap : aparams; ma : modaddrs; acl : (bytes * bytes) list;
                dao_owner : bytes; params_raw : bytes amap; height : z;
-               btime : z; haspk : unit amap }
+               btime : z; haspk : bytes amap }
 
 (** val set_bank : state -> z amap -> z -> state **)
 
@@ -3782,7 +3782,9 @@ type dres0 =
 let ante s t =
   if Z.ltb s.ap.a_max_memo t.t_memo_len
   then None
-  else (match t.t_attached with
+  else (match match t.t_attached with
+              | Some ka -> Some ka
+              | None -> aget s.haspk (msg_signer t.t_msg) with
         | Some ka ->
           if negb (beqb ka (msg_signer t.t_msg))
           then None
@@ -3803,31 +3805,7 @@ let ante s t =
                                       else bank_send s (msg_signer t.t_msg)
                                              s.ma.m_fee t.t_fee
                                     | None -> None)
-        | None ->
-          (match aget s.haspk (msg_signer t.t_msg) with
-           | Some _ ->
-             let ka = msg_signer t.t_msg in
-             if negb (beqb ka (msg_signer t.t_msg))
-             then None
-             else if t.t_in_index
-                  then None
-                  else if Z.ltb t.t_fee (required_fee s t.t_gov_fee t.t_msg)
-                       then None
-                       else if (&&) (Z.ltb Z0 t.t_multi_count)
-                                 (Z.ltb s.ap.a_sig_limit t.t_multi_count)
-                            then None
-                            else if (||) (negb (beqb t.t_signed_by ka))
-                                      t.t_mutated
-                                 then None
-                                 else (match aget s.accts (msg_signer t.t_msg) with
-                                       | Some b ->
-                                         if Z.ltb b t.t_fee
-                                         then None
-                                         else bank_send s
-                                                (msg_signer t.t_msg)
-                                                s.ma.m_fee t.t_fee
-                                       | None -> None)
-           | None -> None))
+        | None -> None)
 
 (** val deliver_tx : state -> tx -> dres0 **)
 
